@@ -7,10 +7,14 @@
 (* the script independent of who lists the keys in which order) and the    *)
 (* property text - not from the library.                                   *)
 (*                                                                         *)
-(* Configuration  cfg = [n, m, holder]:  n cosigner keys 1..n, threshold   *)
+(* Configuration  cfg = [n, m, holder, afs, height]:  n cosigner keys 1..n, *)
+(* threshold m,                                                            *)
 (* m, and W = Len(holder) cosigner *wallets*; wallet w holds key           *)
 (* holder[w] privately and the other keys publicly (two wallets may hold   *)
-(* the same key: they are then the same signer).                           *)
+(* the same key: they are then the same signer).  afs[w]: wallet w was     *)
+(* created with anti-fee-sniping (its own proposals get locktime = height, *)
+(* the current block height); such per-wallet settings shape what a wallet *)
+(* proposes and must not touch what it imports.                            *)
 (*                                                                         *)
 (* Part 1 - agreement.  A wallet is created from the n keys listed in some *)
 (* order (a permutation of 1..n).  The public keys at one derivation path  *)
@@ -68,11 +72,20 @@
 (*   signature duplicated, another dropped; the result may no longer       *)
 (*   verify): see SignScrambles.  Nothing is predicted for that copy       *)
 (*   afterwards.                                                           *)
+(*   "raw-import-applies-importer-locktime"  a raw transaction with        *)
+(*   locktime 0 imported by a wallet with anti-fee-sniping gets that       *)
+(*   wallet's locktime (the block height), as if it were a new proposal.   *)
+(*   "dict-import-resets-sequences"  a dictionary import ignores the       *)
+(*   sequence numbers: every input gets the importer's default (fffffffe   *)
+(*   with anti-fee-sniping, ffffffff without), a replace-by-fee signal is  *)
+(*   lost.  Both: see BodyAfter.  The signatures the copy carries were     *)
+(*   made over the old body; nothing is predicted for them afterwards.     *)
 (***************************************************************************)
 EXTENDS Naturals, Sequences, FiniteSets
 
 Forms == {"object", "dict", "file", "raw"}
-DeviationNames == {"raw-omits-partial-multisig", "dict-import-send-raises", "resign-scrambles-unattributed-signatures"}
+DeviationNames == {"raw-omits-partial-multisig", "dict-import-send-raises", "resign-scrambles-unattributed-signatures",
+                   "raw-import-applies-importer-locktime", "dict-import-resets-sequences"}
 
 Perms(n) == {p \in [1..n -> 1..n] : \A i, j \in 1..n : i # j => p[i] # p[j]}
 Range(f) == {f[i] : i \in DOMAIN f}
@@ -113,9 +126,21 @@ Carried(cfg, S, form, devs) ==
          THEN (IF "raw-omits-partial-multisig" \in devs THEN {{}} ELSE {S})
          ELSE {T \in SUBSET S : Cardinality(T) = cfg.m}
 
+\* the body wallet v holds after importing a copy with that body: the same (property); the deviations rewrite fields
+Zero4 == <<0, 0, 0, 0>>
+SeqFinal == <<255, 255, 255, 255>>
+SeqLocktime == <<254, 255, 255, 255>>
+BodyAfter(cfg, body, v, form, devs) ==
+    IF form = "raw" /\ "raw-import-applies-importer-locktime" \in devs /\ cfg.afs[v] /\ body.locktime = Zero4
+    THEN [body EXCEPT !.locktime = cfg.height]
+    ELSE IF form = "dict" /\ "dict-import-resets-sequences" \in devs
+    THEN [body EXCEPT !.ins = [i \in 1..Len(body.ins) |->
+                                 [body.ins[i] EXCEPT !.seq = IF cfg.afs[v] THEN SeqLocktime ELSE SeqFinal]]]
+    ELSE body
+
 A_HandOff(cfg, s, w, v, form, devs) ==
     IF ~s.copy[w].has \/ w = v THEN {}
-    ELSE {[s EXCEPT !.copy[v] = [has |-> TRUE, signed |-> T, body |-> s.copy[w].body], !.by[v] = s.by[w]] :
+    ELSE {[s EXCEPT !.copy[v] = [has |-> TRUE, signed |-> T, body |-> BodyAfter(cfg, s.copy[w].body, v, form, devs)], !.by[v] = s.by[w]] :
             T \in Carried(cfg, s.copy[w].signed, form, devs)}
 
 \* Send answers with "broadcast" exactly for a valid copy
